@@ -1,6 +1,7 @@
 (* C08 - Alignment results do not depend on the MIP back-end. *)
-From Coq Require Import List Arith ZArith Bool.
+From Coq Require Import String List Arith ZArith Bool.
 From PGA Require Import Align.Tuples Align.Cover Align.Inst Align.PartProofs Align.OptProofs Align.Backend.
+From PGAprops Require Import IlpGen.
 Import ListNotations.
 
 (* the two formulations of the best-alignment program have the same feasible vectors (hence the same minima) *)
@@ -23,3 +24,17 @@ Theorem C08_fallback_total soft e :
   (fst final = CBC <-> cylp_importable e = true /\ cbc_raises_solver_error e = false) /\
   (forall c, In c calls -> c <> final -> c = (CBC, if soft then GeOne else EqOne) /\ cbc_raises_solver_error e = true).
 Proof. exact (fallback_total soft e). Qed.
+
+(* ---------------------------------------------------------------------------------------------------------------------------------
+   Tie to the source (re-proved on every run against genprops/IlpGen.v): which exceptions select the fallback and which solver each branch names,
+   for the best and for the soft alignment. *)
+Theorem C08_src_backends :
+  map (fun k => (k, (snd (nth k (map (fun kv => (0%nat, snd kv)) best_ilp_src) (0%nat, ""%string))))) [4; 5; 6]%nat =
+  [(4%nat, "import cylp; cp.Problem(cp.Minimize(disorders.T @ x), [A @ x == 1]).solve(solver=cp.CBC)"%string);
+   (5%nat, "(ImportError, cp.SolverError)"%string);
+   (6%nat, "matmul = A @ x; cp.Problem(cp.Minimize(disorders.T @ x), [1 <= matmul, matmul <= 1]).solve(solver=cp.GLPK_MI)"%string)] /\
+  map (fun k => (k, (snd (nth k (map (fun kv => (0%nat, snd kv)) soft_ilp_src) (0%nat, ""%string))))) [4; 5; 6]%nat =
+  [(4%nat, "import cylp; cp.Problem(cp.Minimize(disorders.T @ x), [A @ x >= 1]).solve(solver=cp.CBC)"%string);
+   (5%nat, "(ImportError, cp.SolverError)"%string);
+   (6%nat, "cp.Problem(cp.Minimize(disorders.T @ x), [A @ x >= 1]).solve(solver=cp.GLPK_MI)"%string)].
+Proof. split; reflexivity. Qed.
